@@ -196,7 +196,7 @@ class SimpleCommand(BaseCommand):
         for arg in all_args.for_args():
             arg.tokenize(self.stack, self.env)
 
-        if self.arg_type == str:
+        if self.arg_type == str or isinstance(self.arg_type, str):
             all_args = all_args.map_args(lambda i: str(i))
         return all_args
 
